@@ -516,6 +516,13 @@ def gen_directed_pairs():
                  ([b"--output", b"f"], [b"--out", b"f"]), ([b"x", b"-V"], [b"x", b"-v"]),
                  ([b"r", b"-N"], [b"run", b"-n"]), ([b"exec", b"-nN", b"a"], [b"run", b"-nn", b"a"]),
                  ([b"-V", b"r", b"-N", b"a"], [b"-v", b"run", b"-n", b"a"])]
+        if posflag is None:
+            # detached vs attached value of an option that allows negative numbers: every spelling of a number the
+            # lexer documents (`-1`, `-1.`, `-2.5`, `-1e3`) is a VALUE in the detached form too (seeded change seed2/C08-3)
+            c["args"].append({"id": b"scale", "short": "s", "long": b"scale", "action": "set", "flags": {"negnum"}})
+            for num in (b"-1", b"-1.", b"-10.", b"-2.5", b"-1e3", b"-0", b"-3.e2"):
+                pairs += [([b"--scale", num], [b"--scale=" + num]), ([b"-s", num], [b"-s" + num]),
+                          ([b"-s", num, b"x"], [b"-s=" + num, b"x"])]
         for a, b in pairs:
             if posflag == "hyphen" and any(t in (b"-Oval", b"-qOval") for t in a):
                 continue        # under a hyphen-value positional a cluster with an undefined character (`-Oval`) is a VALUE
